@@ -48,9 +48,11 @@ JsonOK(r) ==
 WrapOK(r) ==
   /\ NoPanic(r.out)
   /\ LET exp == CASE r.wrap = 0 -> r.a [] r.wrap = 1 -> VList(<< r.a >>) [] r.wrap = 2 -> VMap(<< << VStr(<<100>>), r.a >> >>)
-         wide == r.a.t = "dur" /\ ~(LET NMx == INSTANCE Num64 IN NMx!InI64(r.a.n)) IN
+         wide == r.a.t = "dur" /\ ~(LET NMx == INSTANCE Num64 IN NMx!InI64(r.a.n))
+         \* the wrapper travels as RFC 3339 text, which has no spelling for an offset that is not a whole number of minutes
+         oddOffset == r.a.t = "ts" /\ r.a.off % 60 # 0 IN
      \/ (r.out.k = "v" /\ Same(exp, r.out.v))
-     \/ (wide /\ r.out.k \in {"v", "e"})
+     \/ ((wide \/ oddOffset) /\ r.out.k \in {"v", "e"})
 CaseOK(r) == CASE r.op = "ser" -> SerOK(r) [] r.op = "serjson" -> SerJsonOK(r) [] r.op = "json" -> JsonOK(r) [] r.op = "wrap" -> WrapOK(r)
 
 Init == l = 1 /\ bad = << >> /\ ndev = 0
